@@ -57,16 +57,29 @@ const (
 type recBackend struct {
 	storeOpts    []*storage.StoreOptions
 	retrieveOpts []*storage.RetrieveOptions
+	failNext     bool           // the next call reports an error
+	lastDoc      *sbom.Document // what the last successful Retrieve returned
 }
+
+var errBackend = fmt.Errorf("backend failure")
 
 func (b *recBackend) Store(_ *sbom.Document, o *storage.StoreOptions) error {
 	b.storeOpts = append(b.storeOpts, o)
+	if b.failNext {
+		b.failNext = false
+		return errBackend
+	}
 	return nil
 }
 
 func (b *recBackend) Retrieve(_ string, o *storage.RetrieveOptions) (*sbom.Document, error) {
 	b.retrieveOpts = append(b.retrieveOpts, o)
-	return sbom.NewDocument(), nil
+	if b.failNext {
+		b.failNext = false
+		return nil, errBackend
+	}
+	b.lastDoc = sbom.NewDocument()
+	return b.lastDoc, nil
 }
 
 // ---- writer ---------------------------------------------------------------------------------
@@ -160,13 +173,19 @@ func (r *Report) writerHistory(g *gen.G, cf *CasesFile, dir string) {
 				// Store / StoreWithOptions against the recording backend
 				var pc [][2]string
 				n0 := len(wrec.storeOpts)
+				wrec.failNext = g.Chance(0.3)
+				wantErr := wrec.failNext
+				var serr error
 				if g.Chance(0.5) {
-					_ = w.Store(doc) // the plain entry point hands the library defaults to the backend
+					serr = w.Store(doc) // the plain entry point hands the library defaults to the backend
 				} else {
 					b := g.Chance(0.5)
 					t := fmt.Sprintf("ps%d", g.Int(100))
-					_ = w.StoreWithOptions(doc, &writer.Options{StoreOptions: &storage.StoreOptions{NoClobber: b, BackendOptions: t}})
+					serr = w.StoreWithOptions(doc, &writer.Options{StoreOptions: &storage.StoreOptions{NoClobber: b, BackendOptions: t}})
 					pc = append(pc, [2]string{"noclobber", fmt.Sprint(b)}, [2]string{"store-backend", t})
+				}
+				if (serr != nil) != wantErr {
+					r.Fail(Failure{What: "a store through a writer did not report what the storage backend reported", Detail: fmt.Sprintf("backend failed: %v, writer returned: %v", wantErr, serr), Input: map[string]any{"history": desc}})
 				}
 				eff := []string{"-", "-", "", "", "-", "-"}
 				if len(wrec.storeOpts) > n0 {
@@ -401,7 +420,15 @@ func (r *Report) readerHistory(g *gen.G, cf *CasesFile, dir string) {
 			// every reader gets a sniffer that reports the fake's format (so that the entry points without a
 			// stated format reach the fake driver) and the recording backend, both through their options
 			opts = append(opts, reader.WithSniffer(fixedSniffer{fmtA}), reader.WithSniffer(nil), reader.WithStoreRetriever(rrec), reader.WithStoreRetriever(nil))
+			var myUO *native.UnserializeOptions
+			if g.Chance(0.4) {
+				myUO = &native.UnserializeOptions{}
+				opts = append(opts, reader.WithUnserializeOptions(myUO), reader.WithUnserializeOptions(nil))
+			}
 			nr := reader.New(opts...)
+			if (myUO != nil && nr.Options.UnserializeOptions != myUO) || nr.Options.UnserializeOptions == nil {
+				r.Fail(Failure{What: "a reader's unserialize options after construction are not the given value (or a nil argument replaced them)", Input: map[string]any{"history": desc, "with": specs}})
+			}
 			if nr.Storage != storage.StoreRetriever(rrec) {
 				r.Fail(Failure{What: "WithStoreRetriever did not install the given backend (or a nil argument replaced it)", Input: map[string]any{"history": desc}})
 			}
@@ -416,12 +443,19 @@ func (r *Report) readerHistory(g *gen.G, cf *CasesFile, dir string) {
 				// Retrieve / RetrieveWithOptions against the recording backend
 				var pc [][2]string
 				n0 := len(rrec.retrieveOpts)
+				rrec.failNext = g.Chance(0.3)
+				wantErr := rrec.failNext
+				var rdoc *sbom.Document
+				var rerr error
 				if g.Chance(0.6) {
-					_, _ = rd.Retrieve("some-id") // the plain entry point hands the library defaults to the backend
+					rdoc, rerr = rd.Retrieve("some-id") // the plain entry point hands the library defaults to the backend
 				} else {
 					t := fmt.Sprintf("pr%d", g.Int(100))
-					_, _ = rd.RetrieveWithOptions("some-id", &reader.Options{RetrieveOptions: &storage.RetrieveOptions{BackendOptions: t}})
+					rdoc, rerr = rd.RetrieveWithOptions("some-id", &reader.Options{RetrieveOptions: &storage.RetrieveOptions{BackendOptions: t}})
 					pc = append(pc, [2]string{"retrieve-backend", t})
+				}
+				if (rerr != nil) != wantErr || (!wantErr && rdoc != rrec.lastDoc) || (wantErr && rdoc != nil) {
+					r.Fail(Failure{What: "a retrieve through a reader did not return what the storage backend returned", Detail: fmt.Sprintf("backend failed: %v, reader returned document %v, error %v", wantErr, rdoc != nil, rerr), Input: map[string]any{"history": desc}})
 				}
 				eff := []string{"", "-", "-"}
 				if len(rrec.retrieveOpts) > n0 {
@@ -554,6 +588,34 @@ func runC18(seed int64, n int, dir string, tier string) *Report {
 	for i := 0; i < n; i++ {
 		rep.writerHistory(g, cf, dir)
 		rep.readerHistory(g, cf, dir)
+	}
+	// the storage backend an instance gets by default is its own: configuring one instance's backend in
+	// place (the only way a default file-system backend can be configured) leaves every other instance alone
+	{
+		rep.OracleEvals++
+		w1, w2 := writer.New(), writer.New()
+		r1, r2 := reader.New(), reader.New()
+		f1, ok1 := w1.Storage.(*storage.FileSystem)
+		f2, ok2 := w2.Storage.(*storage.FileSystem)
+		g1, ok3 := r1.Storage.(*storage.FileSystem)
+		g2, ok4 := r2.Storage.(*storage.FileSystem)
+		if !(ok1 && ok2 && ok3 && ok4) {
+			rep.Fail(Failure{What: "an instance constructed without options does not have a file-system storage backend", Input: map[string]any{}})
+		} else {
+			before := []string{f2.Options.Path, g1.Options.Path, g2.Options.Path}
+			f1.Options.Path = filepath.Join(dir, "c18-store-of-writer-1")
+			w3, r3 := writer.New(), reader.New()
+			after := []string{f2.Options.Path, g1.Options.Path, g2.Options.Path}
+			f3, _ := w3.Storage.(*storage.FileSystem)
+			g3, _ := r3.Storage.(*storage.FileSystem)
+			if fmt.Sprint(before) != fmt.Sprint(after) || f3 == nil || g3 == nil || f3.Options.Path != before[0] || g3.Options.Path != before[1] {
+				rep.Fail(Failure{What: "configuring one writer's default storage backend changed the backend of another instance (or of instances constructed later)", Detail: fmt.Sprintf("paths before %v after %v", before, after), Input: map[string]any{"configured": "writer 1", "path": f1.Options.Path}})
+			}
+			g1.Options.Path = filepath.Join(dir, "c18-store-of-reader-1")
+			if f2.Options.Path != before[0] || g2.Options.Path != before[2] {
+				rep.Fail(Failure{What: "configuring one reader's default storage backend changed the backend of another instance", Input: map[string]any{"configured": "reader 1"}})
+			}
+		}
 	}
 	rep.CasesFiles = cf.Write(filepath.Join(dir, "cases_C18"))
 	rep.ShardSize = shardSize
